@@ -55,6 +55,11 @@ def container_family(rep, tier, rng, gts):
         add("vcf", chunk, vcf, [[g.encode() for g in r] for r in chunk], "vcf GT-only " + ";".join(",".join(r) for r in chunk))
         vcf2 = render_vcf(["a", "b", "c"], chunk, extra_fields=True, dot_fields=True, missing_extra=(bi % 12 == 0))
         add("vcf", chunk, vcf2, [[g.encode() for g in r] for r in chunk], "vcf GT:DP:GQ " + ";".join(",".join(r) for r in chunk))
+        # the same container against the model of the WHOLE sample (FORMAT keys, all values of each sample as written)
+        body = [l.split("\t") for l in vcf2.decode().split("\n") if l and not l.startswith("#")]
+        impl_lines.append("genos " + vcf2.hex())
+        model_lines.append("genosv " + ";".join("%s:%s" % (f[8].encode().hex(), ",".join(x.encode().hex() for x in f[9:])) for f in body))
+        labels.append("vcf-whole-sample GT:DP:GQ " + ";".join(",".join(r) for r in chunk))
         vecs = [[gt_vector(g, max(ploidy(x) for x in r)) for g in r] for r in chunk]
         for nm, v in (("bcf(htslib layout)", vcf), ("bcf(htslib layout, GT:DP:GQ)", vcf2)):
             b = bcf_encode_hts(v)
@@ -68,6 +73,17 @@ def container_family(rep, tier, rng, gts):
     for t in odd:
         vcf = render_vcf(["a", "b"], [[t, "0/1"], ["0/0", "1/1"]])
         add("vcf", None, vcf, [[t.encode(), b"0/1"], [b"0/0", b"1/1"]], "vcf odd GT text %r" % t)
+    # whole samples of unusual form: values dropped from the end, too many values, empty values, no GT key, GT not first
+    hdr_fmt = [("GT:DP:GQ", ["0/1", "0/1:5", "0/1:5:6", "0/1:5:6:7", "0/1::6", ":5:6", "0/1:5:", ".:.:.", ".", "./.:.", "1|1:.:."]),
+               ("GT", ["0/1", "0/1:", ".", "1/1:3"]), ("DP:GT", ["5:0/1"]), ("GT:DP:GT", ["0/1:5:1/1"]), ("GT:GQ:DP", ["0/1:3:4", "0/1:3"])]
+    for fmtk, samples in hdr_fmt:
+        for smp in samples:
+            other = ":".join(["0/0"] + ["7"] * (len(fmtk.split(":")) - 1)) if fmtk.startswith("GT") else ":".join(["7"] * (len(fmtk.split(":")) - 1) + ["0/0"])
+            line = "chr1\t1\t.\tA\tC\t.\t.\t.\t%s\t%s\t%s" % (fmtk, smp, other)
+            vcf = render_vcf(["a", "b"], [["0/0", "0/0"], ["0/0", "1/1"]], raw_lines={0: line})
+            impl_lines.append("genos " + vcf.hex())
+            model_lines.append("genosv %s:%s,%s;%s:%s,%s" % (fmtk.encode().hex(), smp.encode().hex(), other.encode().hex(), b"GT".hex(), b"0/0".hex(), b"1/1".hex()))
+            labels.append("vcf-whole-sample odd FORMAT %s sample %r" % (fmtk, smp))
     # raw int8 vectors (not only htslib's): missing (0x80) and end-of-vector (0x81) anywhere, negative values, phased bits
     alphabet = [0, 1, 2, 3, 4, 5, 6, 7, 0x10, 0x7E, 0x7F, 0x80, 0x81, 0xFF, 0xFE]
     import itertools as it
